@@ -203,7 +203,7 @@ def incomparable_finalize_pair(g, hs):
 def gen_graph(r, n, style=None):
     """Returns (graph, failing_merge or None, meta).  The failing merge (a merge command whose
     braid is a ParallelFinalize) is NOT part of the graph; it is delivered last."""
-    style = style or r.choice(["rand", "rand", "asc", "desc", "ties", "chainy", "wide", "fin", "fin", "nested"])
+    style = style or r.choice(["rand", "rand", "asc", "desc", "ties", "chainy", "wide", "fin", "fin", "nested", "quiet", "quiet", "quietchain"])
     g = Graph()
     used = set()
     ctr = [0]
@@ -230,8 +230,9 @@ def gen_graph(r, n, style=None):
         return ("b", r.choice([0, 0, 1, 1, 2, 3, 7, 4294967295]))
 
     fin_budget = {"fin": r.range(1, 4)}.get(style, r.choice([0, 0, 0, 1, 2]))
-    p_branch = {"chainy": 8, "wide": 45, "nested": 25}.get(style, r.choice([10, 20, 35]))
-    p_merge = {"chainy": 10, "wide": 10, "nested": 40}.get(style, r.choice([10, 20, 30]))
+    p_branch = {"chainy": 8, "wide": 45, "nested": 25, "quietchain": 10}.get(style, r.choice([10, 20, 35]))
+    p_merge = {"chainy": 10, "wide": 10, "nested": 40, "quietchain": 8}.get(style, r.choice([10, 20, 30]))
+    p_quiet = {"quiet": 33, "quietchain": 40}.get(style, 4)
     init = new_id()
     g.add(init, ("i",), ())
     tips = [init]
@@ -291,10 +292,10 @@ def gen_graph(r, n, style=None):
                 prio = prio_basic()
             data = "a"
             dr = r.below(100)
-            if dr < 4:
+            if dr < p_quiet:
                 data = "q"
                 meta["quiet"] += 1
-            elif dr < 12 and len(g.order) > 2:
+            elif dr < p_quiet + 8 and len(g.order) > 2:
                 # conditional: accepted at origin (by construction), possibly rejected in a braid
                 seq = st.at(parent)
                 other = r.choice(g.order)
@@ -652,6 +653,65 @@ def corpus_graphs():
     return out
 
 
+
+def quiet_base_graph(r):
+    """A braid whose BASE (the lone strand) is a fact-less command in the MIDDLE of a segment whose later
+    commands write facts:  T -> q1..qk (quiet, large keys) -> w1..wj (writers, small keys), and a side branch
+    T -> y1..yl (middle keys).  Heads {wj, yl}: the writers are popped first, then the side branch, and the
+    last quiet command qk remains alone = base.  History 1 delivers q1..qk,w1..wj as ONE segment that starts
+    at q1; history 2 splits that segment right after the base.  Optionally a merge command of the two heads
+    with a child on top, so that the same braid also runs in add_merge."""
+    g = Graph()
+    nid = [r.range(2, 50)]
+
+    def new():
+        nid[0] += 1 + r.below(5)
+        return nid[0]
+    init = new()
+    g.add(init, ("i",), ())
+    T = init
+    prefix = []
+    for _ in range(r.choice([0, 0, 1, 2])):
+        x = new()
+        g.add(x, ("b", r.below(3)), (T,), r.choice(["a", "a", "q"]))
+        prefix.append(x)
+        T = x
+    ys = []
+    p = T
+    for _ in range(r.range(1, 3)):
+        x = new()
+        g.add(x, ("b", 5), (p,), r.choice(["a", "a", "q"]))
+        ys.append(x)
+        p = x
+    qs = []
+    p = T
+    for _ in range(r.range(1, 3)):
+        x = new()
+        g.add(x, ("b", 9), (p,), "q")
+        qs.append(x)
+        p = x
+    ws = []
+    for _ in range(r.range(1, 3)):
+        x = new()
+        g.add(x, ("b", 1), (p,), r.choice(["a", "a", "a", "q"]) if ws else "a")
+        ws.append(x)
+        p = x
+    tail = []
+    if r.chance(1, 2):
+        m = (1 << 62) + new()
+        heads = (ws[-1], ys[-1]) if r.chance(1, 2) else (ys[-1], ws[-1])
+        g.add(m, ("m",), heads)
+        c = new()
+        g.add(c, ("b", 2), (m,), "a")
+        tail = [m, c]
+    pre = [("add", [init])] + ([("add", prefix)] if prefix else []) + [("add", ys)]
+    post = ([("add", tail)] if tail else []) + [("commit",)]
+    h_one = pre + [("add", qs + ws)] + post                               # one segment q1..wj
+    h_split = pre + [("add", qs), ("flush",), ("add", ws)] + post          # split right after the base
+    h_each = pre + [("add", [x]) for x in qs + ws] + post                  # one add per command (same segment: phead chain)
+    return g, [h_one, h_split, h_each]
+
+
 def spill_graph(r, K, tail):
     """K hubs under one LCA, each with two child chains that stay heads: K convergence points alive at once
     (> 3*256 spills the convergence map) and a region of > 256 commands (spills the braid result)."""
@@ -733,6 +793,11 @@ def run_braid_check(ctx, focus):
     else:
         for (name, g) in corpus_graphs():
             graphs.append((name, g, None, {"style": "corpus"}))
+    if not replay_plan:
+        for i in range({"C02": 8, "C03": 16, "C05": 4}[focus] * (6 if thorough else 1)):
+            qg, qhist = quiet_base_graph(r)
+            graphs.append(("quietbase%d" % i, qg, None, {"style": "quiet_base_mid_segment", "histories": qhist,
+                                                          "quiet": sum(1 for x in qg.order if qg.data(x) == "q")}))
     for i in range(ngraphs):
         n = r.range(4, nmax) if not (thorough and i % 10 == 0) else r.range(100, 400)
         style = None
@@ -762,9 +827,10 @@ def run_braid_check(ctx, focus):
             text = [render_case(replay_plan[0][0], replay_plan[0][2], g, failing, replay_plan[0][3])]
             break
         big_g = len(g.order) > 500
-        layouts = 1 if big_g else (2 if focus != "C03" else 3)
+        fixed = meta.get("histories")
+        layouts = len(fixed) if fixed else (1 if big_g else (2 if focus != "C03" else 3))
         for li in range(layouts):
-            ops = gen_history(r, g, failing)
+            ops = fixed[li] if fixed else gen_history(r, g, failing)
             backends = ("mem", "libc") if (li == 0 or big_g) else (("mem",) if li % 2 else ("libc",))
             if len(g.order) > 3000 and not thorough:
                 backends = ("libc",)
@@ -807,7 +873,7 @@ def run_braid_check(ctx, focus):
     stale = []           # correspondence disagreements (impl vs reference), with details
     coq_items = []
     coq_index = []
-    stats = {"braids": 0, "braids_ge2_strands": 0, "braids_tie_or_nested": 0, "parfin": 0, "spilled_braid": 0, "spilled_conv": 0,
+    stats = {"quiet_base": 0, "braids": 0, "braids_ge2_strands": 0, "braids_tie_or_nested": 0, "parfin": 0, "spilled_braid": 0, "spilled_conv": 0,
              "nonantichain_braids": 0, "rejected_in_braid": 0, "max_region": 0, "heads_hist": {}, "layout_groups_equal": 0}
     per_graph_obs = {}
     for (cname, gi, backend, ops) in plan:
@@ -852,6 +918,8 @@ def run_braid_check(ctx, focus):
                     if b["base_state"] is not None and b["base_state"] and g.data(ref[1]) == "a":
                         base_id = b["base_state"][-1]
                     queries.append((list(hs), 0, base_id, b["order"]))
+                    if g.data(ref[1]) == "q":
+                        stats["quiet_base"] += 1
                     region = len(g.closure(hs) - g.ancs(ref[1])) + 1
                     stats["max_region"] = max(stats["max_region"], region)
                     if len(ref[2]) >= 2:
@@ -920,6 +988,8 @@ def run_braid_check(ctx, focus):
                         if o != ref[2]:
                             stale.append((cname, "commit braid order %r, reference %r" % (o, ref[2]), replay))
                         stats["braids"] += 1
+                        if g.data(ref[1]) == "q":
+                            stats["quiet_base"] += 1
                         if len(ref[2]) >= 2:
                             stats["braids_ge2_strands"] += 1
                         stats["max_region"] = max(stats["max_region"], len(g.closure(heads) - g.ancs(ref[1])) + 1)
@@ -999,6 +1069,8 @@ def run_braid_check(ctx, focus):
             "braids": stats["braids"], "braids_with_ge2_applied": stats["braids_ge2_strands"],
             "braids_with_tie_or_nested_merge": stats["braids_tie_or_nested"],
             "braids_of_comparable_heads": stats["nonantichain_braids"],
+            "braids_whose_base_is_a_factless_command": stats["quiet_base"],
+            "quiet_base_mid_segment_patterns": sum(1 for x in graphs if x[3].get("style") == "quiet_base_mid_segment"),
             "parallel_finalize_verdicts": stats["parfin"],
             "max_region_size": stats["max_region"],
             "histories_that_spilled_braid_result": stats["spilled_braid"],
